@@ -34,9 +34,13 @@ def run(ctx):
     rep.rule("C29.R2", "global solution arrays are indexed with the matching global DOF set first", 25)
     rep.rule("C29.R3", "kinematic calls of an export use sol_i.t", 20)
     rep.rule("C29.R4", "uniform stride in __prepare_data", 1)
+    rep.rule("C29.R6", "an exported point and the velocity written for it name the same material point (same body-fixed offset attributes)", 4)
+    rep.rule("C29.R5", "the exported solution is a pure row selection of the solver's solution (no arithmetic on time or state); nobody rewrites it", 3)
     r1(ctx)
     r2_r3(ctx)
     r4(ctx)
+    r5(ctx)
+    r6(ctx)
 
 
 def r1(ctx):
@@ -292,6 +296,178 @@ def r4(ctx):
         rep.bad("C29.R4", C, subs[0] if subs else "[::frac]", "fields are not all subsampled with the same stride from index 0 (frames of different fields would disagree)", f"{VTK}:{fn.lineno}")
 
 
+def _is_selection(v, dictname):
+    """solution.<field>[slice] / solution.__getattribute__(key)[slice] / getattr(solution, key)[slice] / None."""
+    if isinstance(v, ast.Constant) and v.value is None:
+        return True
+    if isinstance(v, ast.Subscript) and isinstance(v.slice, ast.Slice):
+        a = v.value
+        if isinstance(a, ast.Attribute) and isinstance(a.value, ast.Name) and a.value.id == "solution":
+            return True
+        if isinstance(a, ast.Call):
+            d = dotted(a.func)
+            if d == "solution.__getattribute__" or (d == "getattr" and a.args and norm_src(a.args[0]) == "solution"):
+                return True
+    return False
+
+
+def r5(ctx):
+    rep = ctx.rep
+    fn = ctx.repo.get(VTK, "Export.__prepare_data")
+    C = f"{VTK}:Export.__prepare_data"
+    sol_assign = [n for n in ast.walk(fn) if isinstance(n, ast.Assign) and norm_src(n.targets[0]) == "self.solution"]
+    if len(sol_assign) != 1 or not isinstance(sol_assign[0].value, ast.Call) or dotted(sol_assign[0].value.func) != "Solution":
+        raise AnalysisError(f"{C}: `self.solution = Solution(...)` not found")
+    call = sol_assign[0].value
+    splat = [k.value.id for k in call.keywords if k.arg is None and isinstance(k.value, ast.Name)]
+    if len(splat) != 1:
+        raise AnalysisError(f"{C}: the fields of the exported solution are not passed as one **dict")
+    dname = splat[0]
+    stores = [n for n in ast.walk(fn) if isinstance(n, (ast.Assign, ast.AugAssign))
+              and any(isinstance(t, ast.Subscript) and isinstance(t.value, ast.Name) and t.value.id == dname
+                      for t in (n.targets if isinstance(n, ast.Assign) else [n.target]))]
+    if not stores:
+        raise AnalysisError(f"{C}: no store into `{dname}` found")
+    for st in stores:
+        if isinstance(st, ast.Assign) and _is_selection(st.value, dname):
+            rep.ok("C29.R5", C, f"{norm_src(st)}: a row selection of the solver's field")
+        else:
+            rep.bad("C29.R5", C, st, f"a field of the exported solution is computed (`{norm_src(st.value)[:80]}`) instead of selected from the solver's solution: the files would "
+                    "pair a time / state that was never simulated with the frames", f"{VTK}:{st.lineno}")
+    for k in call.keywords:
+        if k.arg is not None and not (isinstance(k.value, ast.Attribute) and isinstance(k.value.value, ast.Name) and k.value.value.id == "solution"):
+            rep.bad("C29.R5", C, k.value, f"Solution field `{k.arg}` of the exported solution is not taken from the solver's solution", f"{VTK}:{k.value.lineno}")
+    # nobody else rewrites the exported solution or a frame record
+    cls = ctx.repo.get(VTK, "Export")
+    writers = []
+    for m in [x for x in cls.body if isinstance(x, ast.FunctionDef)]:
+        for n in ast.walk(m):
+            tg = n.targets if isinstance(n, ast.Assign) else [n.target] if isinstance(n, (ast.AugAssign, ast.AnnAssign)) else []
+            for t in tg:
+                for tt in (t.elts if isinstance(t, (ast.Tuple, ast.List)) else [t]):
+                    base = tt
+                    while isinstance(base, (ast.Subscript, ast.Attribute)) and norm_src(base) not in ("self.solution",):
+                        if isinstance(base, ast.Attribute) and isinstance(base.value, ast.Name) and base.value.id in ("sol_i",):
+                            break
+                        base = base.value
+                    txt = norm_src(base)
+                    if (txt == "self.solution" or txt.startswith("sol_i.")) and not (m.name.endswith("__prepare_data") and n is sol_assign[0]):
+                        writers.append((m.name, n))
+    if writers:
+        for mname, n in writers:
+            rep.bad("C29.R5", f"{VTK}:Export.{mname}", n, "the exported solution (or a frame record of it) is rewritten after it was selected from the solver's solution", f"{VTK}:{n.lineno}")
+    else:
+        rep.ok("C29.R5", f"{VTK}:Export", "self.solution is assigned once (in __prepare_data) and neither it nor a frame record sol_i is written anywhere else in Export")
+
+
+POS_M = {"r_OP": 3}   # index of the B_r_CP parameter in the subsystem signature (t, q, xi, B_r_CP)
+VEL_M = {"v_P": 4}    # (t, q, u, xi, B_r_CP)
+
+
+class _Offsets:
+    """Which data attributes of the exporting object enter the body-fixed offset (B_r_CP argument) of the point-protocol
+    calls that an expression evaluates (locals resolved through their assignments, self.<lambda> followed into its body)."""
+
+    def __init__(self, view, fn, sn):
+        self.view, self.fn, self.sn = view, fn, sn
+        self.local = {}
+        for n in walk_no_nested(fn):
+            if isinstance(n, ast.Assign) and len(n.targets) == 1 and isinstance(n.targets[0], ast.Name):
+                self.local.setdefault(n.targets[0].id, []).append(n.value)
+
+    def attrs_read(self, expr, sn, seen):
+        """data attributes read by expr, transitively through the object's own lambdas / methods"""
+        out = set()
+        for w in ast.walk(expr):
+            if isinstance(w, ast.Attribute) and isinstance(w.value, ast.Name) and w.value.id == sn and isinstance(w.ctx, ast.Load):
+                out.add(w.attr)
+                key = ("attr", w.attr)
+                if key not in seen and self.view.kind(w.attr) in ("lambda", "alias", "method"):
+                    for (c, body, kind, sn2) in self.view.bodies(w.attr):
+                        out |= self.attrs_read(body.body if isinstance(body, ast.Lambda) else body, sn2, seen | {key})
+            elif isinstance(w, ast.Name) and sn == self.sn and w.id in self.local and w.id not in seen:
+                for v in self.local[w.id]:
+                    out |= self.attrs_read(v, sn, seen | {w.id})
+        return out
+
+    def offsets(self, expr, table, sn=None, seen=frozenset(), depth=0):
+        """(set of attributes entering the offset argument, number of point calls found)"""
+        sn = sn or self.sn
+        out, ncalls = set(), 0
+        if depth > 6:
+            return out, ncalls
+        for w in ast.walk(expr):
+            if isinstance(w, ast.Name) and sn == self.sn and w.id in self.local and w.id not in seen:
+                for v in self.local[w.id]:
+                    o, c = self.offsets(v, table, sn, seen | {w.id}, depth + 1)
+                    out |= o
+                    ncalls += c
+            if not (isinstance(w, ast.Call) and isinstance(w.func, ast.Attribute)):
+                continue
+            recv = dotted(w.func.value) or ""
+            m = w.func.attr
+            if recv == sn and m in table and self.view.kind(m) in ("lambda", "alias"):
+                for (c, body, kind, sn2) in self.view.bodies(m):
+                    o, cc = self.offsets(body.body if isinstance(body, ast.Lambda) else body, table, sn2, seen, depth + 1)
+                    out |= o
+                    ncalls += cc
+            elif m in table and (recv.startswith(sn + ".") or recv == sn):
+                ncalls += 1
+                idx = table[m] - (0 if recv != sn else 0)
+                arg = next((k.value for k in w.keywords if k.arg == "B_r_CP"), None)
+                if arg is None and len(w.args) > idx:
+                    arg = w.args[idx]
+                if arg is not None:
+                    out |= self.attrs_read(arg, sn, seen)
+        return out, ncalls
+
+
+def r6(ctx):
+    rep = ctx.rep
+    model = ctx.model
+    n = 0
+    done = set()
+    for ci in model.all_classes():
+        if "export" not in ci.methods or ci.rel.startswith(("cardillo/visualization/", "cardillo/system.py")):
+            continue
+        fn = ci.methods["export"]
+        C = f"{ci.rel}:{ci.qual}.export"
+        if C in done or len(fn.args.args) < 2:
+            continue
+        done.add(C)
+        sn = fn.args.args[0].arg
+        pts = [x.value for x in walk_no_nested(fn) if isinstance(x, ast.Assign) and norm_src(x.targets[0]) == "points" and isinstance(x.value, ast.List)]
+        if len(pts) != 1:
+            continue
+        pts = pts[0].elts
+        vel_lists = []
+        for w in walk_no_nested(fn):
+            if isinstance(w, ast.Call) and dotted(w.func) == "dict":
+                for k in w.keywords:
+                    if k.arg and k.arg.startswith("v") and isinstance(k.value, ast.List) and len(k.value.elts) == len(pts):
+                        vel_lists.append((k.arg, k.value.elts))
+        if not vel_lists:
+            continue
+        view = protocol.ClassView(ctx, ci, model.variants(ci)[0])
+        off = _Offsets(view, fn, sn)
+        for key, vels in vel_lists:
+            for k, (pe, ve) in enumerate(zip(pts, vels)):
+                op, cp = off.offsets(pe, POS_M)
+                ov, cv = off.offsets(ve, VEL_M)
+                if cp == 0 or cv == 0:
+                    rep.ok("C29.R6", C, f"points[{k}] / {key}[{k}]: not both evaluated through the subsystem point protocol (nothing to compare)", trivial=True)
+                    continue
+                n += 1
+                miss = sorted(op - ov)
+                if miss:
+                    rep.bad("C29.R6", C, ve, f"points[{k}] is evaluated with the body-fixed offset attribute(s) {miss} but the velocity {key}[{k}] written for it is not: "
+                            "on a rotating body the exported vector is the velocity of another material point", f"{ci.rel}:{ve.lineno}")
+                else:
+                    rep.ok("C29.R6", C, f"points[{k}] and {key}[{k}] use the same offset attributes {sorted(op)}")
+    if n < 1:
+        raise AnalysisError("C29.R6: no exported point/velocity pair evaluated through the point protocol was found")
+
+
 RB = "cardillo/discrete/rigid_body.py"
 RE = "cardillo/rods/_base_export.py"
 MUTANTS = [
@@ -315,4 +491,18 @@ MUTANTS = [
          old="                new_solution[key] = solution.__getattribute__(key)[::frac]", new="                new_solution[key] = solution.__getattribute__(key)[1::frac]", expect="C29.R4"),
 ]
 MUTANTS = [m for m in MUTANTS if not m.get("optional")]
-NEUTRAL = []
+MUTANTS += [
+    dict(id="c29-r5-seed", canary=True, what="[seeded by sub-agent] __prepare_data shifts the exported time vector to start at zero", file=VTK,
+         old="        self.solution = Solution(\n            system=solution.system,", new="        new_solution[\"t\"] = new_solution[\"t\"] - new_solution[\"t\"][0]\n        self.solution = Solution(\n            system=solution.system,", expect="C29.R5"),
+    dict(id="c29-r5-2", what="export_contr rescales the frame time before writing", file=VTK,
+         old="            self.__write_time_step_and_name(sol_i.t, file_i)\n", new="            sol_i.t = sol_i.t * 1.0e3\n            self.__write_time_step_and_name(sol_i.t, file_i)\n", expect="C29.R5"),
+    dict(id="c29-r6-orig", canary=True, what="Sphere2Plane.export: contact point velocity without the sphere centre offset (original defect)", file="cardillo/contacts/sphere2plane.py",
+         old="                    self.B_r_CP + A_IB1.T @ r_PC1,", new="                    A_IB1.T @ r_PC1,", expect="C29.R6"),
+]
+NEUTRAL = [
+    dict(id="c29-n1", canary=True, what="__prepare_data uses getattr instead of __getattribute__", file=VTK,
+         old="                new_solution[key] = solution.__getattribute__(key)[::frac]", new="                new_solution[key] = getattr(solution, key)[::frac]"),
+    dict(id="c29-n2", what="Sphere2Plane.export: offset of the contact point hoisted into a local", file="cardillo/contacts/sphere2plane.py",
+         edits=[("cardillo/contacts/sphere2plane.py", "        A_IB2 = self.frame.A_IB(sol_i.t)\n        point_data = dict(", "        A_IB2 = self.frame.A_IB(sol_i.t)\n        B_r_CC1 = self.B_r_CP + A_IB1.T @ r_PC1\n        point_data = dict("),
+                ("cardillo/contacts/sphere2plane.py", "                    self.B_r_CP + A_IB1.T @ r_PC1,", "                    B_r_CC1,")]),
+]
